@@ -775,7 +775,7 @@ def gen_cases(rng, tier, budget):
         add(case("getopt", [code], b))
         add(case("d4parse", [], b))
         add(case("d4msg", [], b))
-    family(rng, tier, gen_dhcp4, nv, 2 * nm, d4_emit)
+    family(rng, tier, gen_dhcp4, nv, nm, d4_emit)
     family(rng, tier, lambda r: gen_dhcp4(r, magic=False), 3, 20, d4_emit)
     for n in (0, 1, 27, 28, 235, 236, 237, 239, 240, 241, 242):
         d4_emit(bytes(n))
